@@ -27,6 +27,7 @@ Record Inv (s : state) : Prop := mkInv {
   iH2 : forall t ts, gts s t = Some ts -> ts < nextts s;
   iK1 : forall t ts, gts s t = Some ts -> tss s ts <> TsFree;
   iK3 : forall t ts o k d, gts s t = Some ts -> tss s ts = TsLive o k d -> o = t;
+  iK2 : forall ts o k d, tss s ts = TsLive o k d -> gts s o = Some ts;
   iI : forall ts o k c, tss s ts = TsLive o k (Some c) ->
          1 <= k /\ (thr s o = Alive -> incb s o = true -> 2 <= k);
   iI2 : forall ts o k, tss s ts = TsLive o k None -> dropped s ts = false ->
@@ -102,6 +103,7 @@ Ltac sat1 HI :=
          | H : cans ?s ?c = CAlive ?ts None ?z, H1 : tss ?s ?ts = TsLive ?o ?k ?d |- _ =>
              pose_once (10, c, ts, z, o, k, d) (iD5 s HI c ts z o k d H H1)
          | H : tss ?s ?ts = TsLive ?o ?k ?d |- _ => pose_once (11, ts, o, k, d) (iF1 s HI ts o k d H)
+         | H : tss ?s ?ts = TsLive ?o ?k ?d |- _ => pose_once (22, ts, o, k, d) (iK2 s HI ts o k d H)
          | H : tss ?s ?ts = TsLive ?o ?k (Some ?c) |- _ => pose_once (12, ts, o, k, c) (iF2 s HI ts c o k H)
          | H : tss ?s ?ts = TsLive ?o ?k (Some ?c) |- _ => pose_once (13, ts, o, k, c) (iI s HI ts o k c H)
          | H : tss ?s ?ts = TsLive ?o ?k None, H1 : dropped ?s ?ts = false |- _ =>
@@ -238,7 +240,7 @@ Proof.
   all: pose proof HI as HI'; destruct HI'.
   all: constructor; fields; intros; rewrite ?in_app_iff in *; cbn [In] in *; upd_split; sat HI; finish HI.
   - apply NoDup_snoc; auto. intros Hin. destruct (iC s HI c Hin) as [ts' E']. congruence.
-  - destruct H9 as [Hin|[->|[]]]; [apply (iC s HI c0 Hin)|congruence].
+  - match goal with H : In ?c0 (zombies s) \/ _ |- _ => destruct H as [Hin|[->|[]]]; [apply (iC s HI c0 Hin)|congruence] end.
 Qed.
 
 Lemma inv_clear s s' : Inv s -> step s EvSweepClear s' -> Inv s'.
@@ -449,4 +451,65 @@ Proof.
   match goal with H : cans s c = CAlive _ _ _ |- _ => rewrite H in Hs end.
   inversion Hs; subst; clear Hs. fields.
   split; [apply upd_same|]. eexists. split; [eassumption|]. rewrite !upd_same. split; eauto.
+Qed.
+
+(* ---- the zombie list is bounded by the exited-but-unswept threads and emptied by a registration *)
+Lemma zombies_distinct_threads s c1 c2 ts1 ts2 o k1 k2 : reach s ->
+  In c1 (zombies s) -> In c2 (zombies s) ->
+  tss s ts1 = TsLive o k1 (Some c1) -> tss s ts2 = TsLive o k2 (Some c2) -> c1 = c2.
+Proof.
+  intros Hr _ _ E1 E2. pose proof (reach_inv s Hr) as HI.
+  pose proof (iK2 s HI _ _ _ _ E1) as G1. pose proof (iK2 s HI _ _ _ _ E2) as G2.
+  rewrite G1 in G2. inversion G2; subst. rewrite E1 in E2. inversion E2; reflexivity.
+Qed.
+
+Definition sweeping_ok (s : state) : Prop :=
+  match reg s with
+  | Some (_, MakeCanary) => zombies s = []
+  | Some _ => True
+  | None => False
+  end.
+
+Lemma sweep_all_empties : forall fuel s s', sweeping_ok s -> sweep_all fuel s = Some s' ->
+  zombies s' = [] /\ reg s' = None.
+Proof.
+  induction fuel as [|f IH]; intros s s' Hok H; cbn [sweep_all] in H; [discriminate|].
+  unfold sweeping_ok in Hok.
+  destruct (reg s) as [[t [|c ts|]]|] eqn:Er; try contradiction.
+  - destruct (step_fn s EvSweepPop) as [s1|] eqn:E; [|discriminate].
+    apply (IH s1 s'); auto. unfold step_fn in E. rewrite Er in E.
+    destruct (finalized s); try discriminate.
+    destruct (zombies s) as [|c l]; [|destruct (cans s c)]; inversion E; subst; unfold sweeping_ok; cbn;
+      rewrite ?Er; auto.
+  - destruct (step_fn s EvSweepClear) as [s1|] eqn:E; [|discriminate].
+    apply (IH s1 s'); auto. unfold step_fn in E. rewrite Er in E.
+    destruct (finalized s); try discriminate.
+    destruct (tss s ts) as [|o k d|]; try (inversion E; subst; unfold sweeping_ok; cbn; exact I).
+    destruct (match d with Some c' => dealloc c' (cans s) (zombies s) (tlsc s) | None => (cans s, zombies s, tlsc s) end)
+      as [[a b] c0]. inversion E; subst; unfold sweeping_ok; cbn; exact I.
+  - unfold step_fn in H. rewrite Er in H. destruct (finalized s); try discriminate.
+    destruct (gts s t) as [ts|]; try discriminate. destruct (tss s ts); try discriminate.
+    inversion H; subst; cbn. split; auto.
+Qed.
+
+(* the first callback of ANY thread (a complete thread_canary_register) leaves the zombie list empty *)
+Lemma registration_empties s t s' : gts s t = None -> mstep s (MCb t) = Some s' ->
+  zombies s' = [] /\ reg s' = None.
+Proof.
+  intros Hg H. cbn [mstep] in H. destruct (step_fn s (EvCb t)) as [s1|] eqn:E; [|discriminate].
+  eapply sweep_all_empties; [|eauto].
+  unfold step_fn in E. destruct (finalized s); try discriminate.
+  destruct (thr s t); try discriminate. destruct (incb s t); try discriminate.
+  destruct (busy s t); try discriminate. rewrite Hg in E. destruct (reg s); try discriminate.
+  inversion E; subst. unfold sweeping_ok; cbn. exact I.
+Qed.
+
+(* ... and when the list is empty and nobody is sweeping, every exited thread's state is destroyed
+   (or had lost its canary while alive) *)
+Lemma swept_means_destroyed s t ts : reach s -> zombies s = [] -> reg s = None ->
+  thr s t = Exited -> gts s t = Some ts -> tss s ts = TsDeleted \/ dropped s ts = true.
+Proof.
+  intros Hr Hz Hreg Hx Hg. destruct (no_leak s t ts Hr Hx Hg) as [H|[(c & Hin & _)|[(t' & c & H)|H]]]; auto.
+  - rewrite Hz in Hin. destruct Hin.
+  - congruence.
 Qed.
